@@ -17,6 +17,10 @@ def classify(kind, msg, tags, o):
         for t in ("class-shadows-import", "field-shadows-import", "pydantic-reserved-key", "attrs-reserved-key"):
             if t in tags:
                 out.add(t)
+    if kind == "folded-collision":
+        out.add(kind)
+    if kind in ("classes", "load", "types", "keys", "fields") and "class-names-collapse" in tags:
+        out.add("class-names-collapse")
     if kind == "render" and "empty-label" in tags:
         out.add("empty-label")
     return out
